@@ -16,7 +16,7 @@
    compute_shortest_distances_matrix (both heap configurations, any admissible queue). *)
 From Coq Require Import List Arith Bool ZArith Permutation.
 From TK Require Import Conn_Model Conn_Spec Conn_Proof Conn_Proof_Main Conn_Proof_Order
-     Conn_Proof_Dijkstra Conn_Proof_Knn Conn_Proof_Sym.
+     Conn_Proof_Dijkstra Conn_Proof_Knn Conn_Proof_Sym Conn_Proof_Consumer.
 From TK Require Dijkstra_Model Dijkstra_Spec Dijkstra_Proof_Base Knn_Spec.
 Import ListNotations.
 
@@ -204,6 +204,45 @@ Theorem fn_shipped_dijkstra_refuted :
 Proof. exact main_fn_shipped_dijkstra_refuted. Qed.
 Print Assumptions fn_shipped_dijkstra_refuted.
 
+(* ---- the consumer-side obligation.  compute_shortest_distances_matrix walks the first n_neighbors
+        entries of every list.  A consumer that walks K entries of lists at least K long gets a finite
+        entry (i,j) exactly when j is reachable from i in the TRUNCATED graph ---- *)
+Theorem consumer_finite_iff : forall fl g w pick N K,
+  0 < N -> wf_graph N g -> long_enough K g -> Dijkstra_Spec.nonneg_w g w ->
+  Dijkstra_Proof_Base.pick_ok pick ->
+  exists m, geodesics_K fl g w pick N K = Dijkstra_Model.DOk m /\
+    forall i j, i < N -> j < N ->
+      (Dijkstra_Spec.entry_of m i j <> None <-> reach (truncate K g) i j).
+Proof. exact main_consumer_finite_iff. Qed.
+Print Assumptions consumer_finite_iff.
+
+(* the pipeline of methods/isomap.hpp as committed (n_neighbors = neighbors[0].size(), i.e. the full
+   lists that were checked): never an infinite geodesic *)
+Theorem isomap_pipeline_finite : forall dist knn N,
+  (forall k, k <= N - 1 -> is_knn_graph dist N k (knn k)) -> 1 <= N ->
+  forall k fl w pick, 1 <= k ->
+  (forall u v, (0 <= w u v)%Z) -> Dijkstra_Proof_Base.pick_ok pick ->
+  exists m, isomap_geodesics fl knn w pick N k = COk (Dijkstra_Model.DOk m) /\
+    forall i j, i < N -> j < N -> exists z, Dijkstra_Spec.entry_of m i j = Some z.
+Proof. exact main_isomap_pipeline_finite. Qed.
+Print Assumptions isomap_pipeline_finite.
+
+(* a consumer that is handed the REQUESTED k (walks only the first k entries of the longer lists
+   check_connectivity returned) walks a graph nobody checked: 8 distinct samples, k = 3, the lists come
+   back with 6 entries, entry (3,0) of the geodesic matrix is infinite — both heaps, every queue *)
+Theorem isomap_requested_k_refuted :
+  exists pts k,
+    let N := length pts in
+    let knn := knn_brute pts in
+    NoDup pts /\ 3 <= k /\ k <= N - 1 /\
+    (forall k', k' <= N - 1 -> is_knn_graph (pdist pts) N k' (knn k')) /\
+    forall fl pick, Dijkstra_Proof_Base.pick_ok pick ->
+    exists m i j, i < N /\ j < N /\
+      isomap_geodesics_requested_k fl knn (pdist pts) pick N k = COk (Dijkstra_Model.DOk m) /\
+      Dijkstra_Spec.entry_of m i j = None.
+Proof. exact main_isomap_requested_k_refuted. Qed.
+Print Assumptions isomap_requested_k_refuted.
+
 (* ---- link to C02: the hypothesis on the search is literally C02's conclusion
         (Knn_Spec.is_knn for every row, indices in Z) ---- *)
 Theorem cc_from_c02 : forall d N (search : nat -> list (list Z)),
@@ -276,3 +315,9 @@ Proof. exact nv_c02. Qed.
 Example hyps_symmetric_satisfiable :
   0 < 4 /\ wf_graph 4 sym4 /\ uniform sym4 /\ symmetric_graph sym4.
 Proof. exact nv_sym. Qed.
+
+Example hyps_consumer_satisfiable :
+  0 < 8 /\ wf_graph 8 (knn_brute w8_pts 6) /\ long_enough 3 (knn_brute w8_pts 6) /\
+  Dijkstra_Spec.nonneg_w (knn_brute w8_pts 6) (pdist w8_pts) /\
+  Dijkstra_Proof_Base.pick_ok Dijkstra_Model.pick_first_min.
+Proof. exact nv_consumer. Qed.
